@@ -158,9 +158,8 @@ def run_r3(ctx, rule):
             if norm(util.cname(t)) != AIG + callee:
                 continue
             n += 1
-            d = t["dest"]["l"]
-            used = any(norm(util.cname(t2)).endswith("Try>::branch") and (t2["args"][0].get("mv") or t2["args"][0].get("cp") or {}).get("l") == d for b2, t2 in fc.calls())
-            rule.check(used, "propagate/%s->%s/%d" % (caller, callee, n), "the result of %s in %s is propagated with `?`" % (callee, caller), fc.loc(bb))
+            used = util.result_propagated(facts, fc, bb)
+            rule.check(used, "propagate/%s->%s/%d" % (caller, callee, n), "the error of %s in %s is handed on to the caller (`?`, returned as is, or `Err(e) => return Err(e)`)" % (callee, caller), fc.loc(bb))
     if n < 7:
         rule.bad("propagate/sites", "only %d fallible call sites found (7 expected)" % n, kind="anchor-missing")
 
@@ -314,6 +313,25 @@ def run_r5(ctx, rule):
         xs, vs = def_exprs(x[1]), def_exprs(v[1])
         if not xs or not vs:
             return False
+        # both unpacked from one tuple that every branch builds as (literal, its code) [in any field order]
+        if len(xs) == 1 and len(vs) == 1 and xs[0][1][0] == "f" and vs[0][1][0] == "f" and xs[0][1][1] == vs[0][1][1] and xs[0][1][1][0] == "l":
+            T = xs[0][1][1][1]
+            try:
+                ix, iv = int(xs[0][1][2]), int(vs[0][1][2])
+            except ValueError:
+                return False
+            tdefs = def_exprs(T)
+            def rel(xe, ve):
+                xo = sy.origin(xe) if xe[0] == "l" else xe
+                vo = sy.origin(ve) if ve[0] == "l" else ve
+                if is_code(xo) and xo[3][0] in (ve, vo):
+                    return True
+                return vo[0] == "call" and norm(vo[2]).endswith("Lit::from_code") and vo[3][0] in (xe, xo)
+            ok = bool(tdefs)
+            for tb, te in tdefs:
+                if not (te[0] == "agg" and te[1] == "tuple" and max(ix, iv) < len(te[3]) and rel(te[3][ix], te[3][iv])):
+                    ok = False
+            return ok
         def linked(xa, va):
             (xb, xe), (vb, ve) = xa, va
             if is_code(xe) and xe[3][0] == v and g.dominates(vb, xb):
